@@ -253,7 +253,7 @@ def model_tree(rng, typed):
             lab, did = f"n{i}", None
         labs.append(lab)
         ids.append(did)
-        kinds.append(rng.choice(["ka", "kb", "kc"]) if typed else None)
+        kinds.append(rng.choice(["ka", "kb", "kc", "child", "child"]) if typed else None)
 
     cnt = [0]
 
@@ -298,8 +298,8 @@ def encode(model, rng, typed, variant):
             if ident in first and first[ident][1] == kind and variant["refs"] and rng.random() < 0.9:
                 nodes.append([parent_pos, first[ident][0]])
             else:
-                if not typed and did is None and (variant["plain_str"] or rng.random() < 0.5):
-                    entry = lab
+                if did is None and (variant["plain_str"] or rng.random() < 0.5) and (not typed or (kind == "child" and variant.get("typed_plain_str"))):
+                    entry = lab  # typed reader: a plain-string entry (as a plain Tree writes it) gets the default kind
                 else:
                     entry = {"str": lab}
                     if did is not None:
@@ -359,7 +359,10 @@ def run_reader(case, res):
             kw = {}
             seen_user = []
             if has_ids or not typed or variant.get("user_short_keys"):
+                mapper_calls = []
+
                 def _m(parent, data):
+                    mapper_calls.append(type(data).__name__)
                     if variant.get("user_short_keys") and not variant["key_map"] and "s" in data:
                         seen_user.append((data.get("s"), data.get("i"), data.get("k")))
                     return data["str"]
@@ -399,6 +402,10 @@ def run_reader(case, res):
                     bad.append(f"loaded tree {got} differs from the described tree {exp}")
                 if any(u != ("user-s", "user-i", "user-k") for u in seen_user):
                     bad.append(f"user keys s/i/k of a document without $key_map reached the mapper as {seen_user[:2]}")
+                n_dict_entries = sum(1 for e in doc["nodes"] if isinstance(e[1], dict))
+                if "mapper" in kw and (len(mapper_calls) != n_dict_entries or set(mapper_calls) - {"dict"}):
+                    bad.append(f"the load mapper was called {len(mapper_calls)}x ({sorted(set(mapper_calls))}), the document has {n_dict_entries} dict "
+                               f"entries (plain-string entries and references are not passed to the mapper)")
                 if variant["user_meta"] and fmeta.get("author") != "someone":
                     bad.append("file_meta lacks the user metadata")
                 if fmeta.get("$generator") != variant["generator"]:
@@ -583,7 +590,7 @@ def run_shard(spec, res):
             typed = rng.random() < 0.5
             variant = {"key_map": rng.choice([False, True, "partial"]), "value_map": rng.random() < 0.5, "refs": rng.random() < 0.7,
                        "plain_str": rng.random() < 0.5, "omit_default_kind": rng.random() < 0.3, "generator": rng.choice(GENERATORS),
-                       "user_meta": rng.random() < 0.5, "user_short_keys": rng.random() < 0.4, "via_path": rng.random() < 0.3}
+                       "user_meta": rng.random() < 0.5, "user_short_keys": rng.random() < 0.4, "via_path": rng.random() < 0.3, "typed_plain_str": rng.random() < 0.5}
             run_case({"kind": "reader", "seed": rng.randrange(10**9), "typed": typed, "variant": variant}, res)
             if res.expired():
                 break
